@@ -7,6 +7,7 @@ import Lean.Data.Json
 import TsRsVerif.Model.Text
 import TsRsVerif.Model.Path
 import TsRsVerif.Model.Case
+import TsRsVerif.Model.Export
 open Lean TsRs
 
 def gs (j : Json) (k : String) : Str :=
@@ -72,6 +73,64 @@ def resJ : Res Str → Json
   | .ok s => Json.mkObj [("ok", S s)]
   | .panic _ => Json.mkObj [("panic", Json.bool true)]
 
+/-! ### histories against the file-system / registry model -/
+
+def locOf (root : Str) : Loc := (Text.splitChar '/' root).filter (· ≠ [])
+
+def prefixes (l : Loc) : List Loc := (List.range l.length).map fun i => l.take (i + 1)
+
+def initFs (root : Str) : Fs :=
+  let l := locOf root
+  { nodes := (prefixes l).map fun p => (p, Node.dir), cwd := l }
+
+def substRoot (root s : Str) : Str := Text.replace "$ROOT".toList root s
+
+def isPrefixLoc (a b : Loc) : Bool := a.length ≤ b.length && b.take a.length == a
+
+def outcomeJ : Outcome → Json
+  | .ok => Json.str "ok"
+  | .err e => Json.mkObj [("err", Json.str (errName e))]
+  | .panic => Json.mkObj [("panic", Json.bool true)]
+
+def optJ (o : Option α) : Json := match o with | some _ => Json.str "ok" | none => Json.str "io"
+
+def histStep (root : Str) (w : World) (st : Json) : World × Json :=
+  let p := substRoot root (gs st "p")
+  match String.ofList (gs st "k") with
+  | "mkdir" => match w.fs.createDirAll p with
+    | some fs' => ({ w with fs := fs' }, Json.str "ok")
+    | none => (w, Json.str "io")
+  | "write" =>
+    let par := (Path.parent p).getD []
+    match w.fs.createDirAll par with
+    | none => (w, Json.str "io")
+    | some fs1 => match fs1.fileCreate p (gs st "s") with
+      | some fs2 => ({ w with fs := fs2 }, Json.str "ok")
+      | none => ({ w with fs := fs1 }, Json.str "io")
+  | "rm" => match w.fs.resolve p with
+    | none => (w, Json.str "io")
+    | some l => match w.fs.lookup l with
+      | none => (w, Json.str "io")
+      | some _ => ({ w with fs := { w.fs with nodes := w.fs.nodes.filter fun n => !isPrefixLoc l n.1 } }, Json.str "ok")
+  | "eam" =>
+    let (w', o) := Export.exportAndMerge w p (gs st "name") (gs st "text")
+    (w', outcomeJ o)
+  | "reset" => ({ w with reg := [], poisoned := false }, Json.str "ok")
+  | k => (w, Json.mkObj [("unknown_step", Json.str k)])
+
+def runHist (j : Json) : Json :=
+  let root := gs j "root"
+  let steps := match j.getObjVal? "steps" with | .ok (Json.arr a) => a.toList | _ => []
+  let (w, outs) := steps.foldl (fun (acc : World × List Json) st =>
+    let (w', o) := histStep root acc.1 st; (w', acc.2 ++ [o])) (({ fs := initFs root, reg := [] } : World), [])
+  let rl := locOf root
+  let tree := w.fs.nodes.filter (fun n => isPrefixLoc rl n.1 && n.1 ≠ rl) |>.map fun n =>
+    Json.arr #[S (Text.intercalate ['/'] (n.1.drop rl.length)),
+      match n.2 with | .dir => Json.mkObj [("dir", Json.bool true)] | .file c => Json.mkObj [("file", S c)]]
+  Json.mkObj [("steps", Json.arr outs.toArray), ("tree", Json.arr tree.toArray),
+    ("registry", Json.arr (w.reg.map fun e => Json.arr #[S (Text.replace root "$ROOT".toList (Path.ofComps e.1)), Json.arr (e.2.map S).toArray]).toArray),
+    ("poisoned", Json.bool w.poisoned)]
+
 def handle (ops : CharOps) (j : Json) : Json :=
   match String.ofList (gs j "op") with
   | "inflect_field" =>
@@ -90,6 +149,11 @@ def handle (ops : CharOps) (j : Json) : Json :=
     match Case.ruleOfName (String.ofList (gs j "rule")) with
     | some r => resJ (Case.serdeVariant ops r (gs j "s"))
     | none => Json.null
+  | "merge" => resJ (Merge.merge (gs j "old") (gs j "new"))
+  | "canon_file" => match Merge.canonFile ((gsl j "names").zip (gsl j "texts")) with
+    | some s => Json.mkObj [("ok", S s)]
+    | none => Json.mkObj [("not_wf", Json.bool true)]
+  | "hist" => runHist j
   | "field_name" => Json.mkObj [("ok", S (Case.rawNameToTsField ops (gs j "s")))]
   | "ts_ident" => Json.mkObj [("ok", S (Case.toTsIdent (gs j "s")))]
   | "absolute" => resStr (Path.absolute (gs j "cwd") (gs j "p"))
